@@ -1,10 +1,13 @@
 package drivers
 
 import (
+	"bytes"
+	"encoding/json"
 	"fmt"
 	"io"
 	"math/big"
 	"os"
+	"os/exec"
 	"path/filepath"
 	"runtime"
 	"time"
@@ -256,12 +259,86 @@ func c17Disk(chk *fw.Check, n int) (growth int64) {
 	return
 }
 
+// c17DocNoLF builds a well-formed DER CRL with about n entries which contains no 0x0A octet before its signature
+// (4-octet serials with digits 0x10..0xFF, a CN-only issuer, no crlExtensions, n adjusted until no length octet is 0x0A):
+// whatever looks at the head of a CRL file to tell PEM from DER must not depend on finding a line feed there.
+func c17DocNoLF(n int) ([]byte, int) {
+	p := world.Std()
+	for ; ; n++ {
+		// sha256WithRSAEncryption: the AlgorithmIdentifier of ecdsa-with-SHA256 is 10 = 0x0A octets long
+		s := &world.CRLSpec{Version: 2, Alg: world.SHA256RSA, IssuerRaw: world.RawDN("CN", "nolf"),
+			ThisUpdate: time.Date(2026, 11, 12, 13, 14, 15, 0, time.UTC), NextUpdate: time.Date(2027, 11, 12, 13, 14, 15, 0, time.UTC), Signer: p.CARSA.Key}
+		t := time.Date(2026, 11, 11, 11, 11, 11, 0, time.UTC)
+		for i := 0; i < n; i++ {
+			b := []byte{byte(0x10 + i/(240*240*240)%112), byte(0x10 + i/(240*240)%240), byte(0x10 + i/240%240), byte(0x10 + i%240)}
+			s.Entries = append(s.Entries, world.RevEntry{Serial: new(big.Int).SetBytes(b), Date: t})
+		}
+		d := s.DER()
+		if i := bytes.IndexByte(d, 0x0a); i < 0 || i > len(d)-300 {
+			return d, n
+		}
+		if n > 0 && n%64 == 63 {
+			panic("c17DocNoLF: cannot avoid 0x0A octets")
+		}
+	}
+}
+
+// c17FootprintWorker runs in a fresh process: read the CRL file with the real reader and a discarding processor and
+// report by how much the heap the process obtained from the OS (a high-water mark; it covers transient buffers which
+// a live-heap sample between two entries cannot see) grew.
+func c17FootprintWorker(path string) int {
+	var m0, m1 runtime.MemStats
+	runtime.GC()
+	runtime.ReadMemStats(&m0)
+	proc := &discardProc{}
+	_, err := crlreader.StreamingCRLFileReader{}.ReadCRL(proc, path)
+	runtime.ReadMemStats(&m1)
+	e := ""
+	if err != nil {
+		e = err.Error()
+	}
+	b, _ := json.Marshal(map[string]interface{}{"heap_sys_before": m0.HeapSys, "heap_sys_after": m1.HeapSys, "entries": proc.n, "err": e})
+	fmt.Println(string(b))
+	return 0
+}
+
+// c17Footprint: heap footprint of reading doc in a fresh process must stay below 32 MiB whatever the size.
+func c17Footprint(chk *fw.Check, name string, doc []byte, n int, dir string) int64 {
+	path := filepath.Join(dir, "footprint.crl")
+	os.WriteFile(path, doc, 0600)
+	defer os.Remove(path)
+	out, err := exec.Command(os.Args[0], "C17", "--tier", "worker", "--", "footprint", path).Output()
+	var r struct {
+		Before  int64  `json:"heap_sys_before"`
+		After   int64  `json:"heap_sys_after"`
+		Entries int    `json:"entries"`
+		Err     string `json:"err"`
+	}
+	if err != nil || json.Unmarshal(bytes.TrimSpace(out), &r) != nil {
+		chk.Violation("C17|footprint-worker-died|"+name, fmt.Sprintf("reading the %s CRL (%d entries, %d bytes) in a fresh process failed: %v %s", name, n, len(doc), err, firstLines(string(out), 3)), nil)
+		return -1
+	}
+	if r.Err != "" || r.Entries != n {
+		chk.Violation("C17|reader-failed|"+name, fmt.Sprintf("reading a well-formed CRL (%s, %d entries) failed: %s (%d entries seen)", name, n, r.Err, r.Entries), nil)
+		return -1
+	}
+	g := r.After - r.Before
+	if g > 32*mib {
+		chk.Violation("C17|reader-footprint-grows|"+name, fmt.Sprintf("reading the %s CRL (%d entries, %d bytes): the heap obtained from the OS grew by %d bytes (bound 32 MiB independent of the size)", name, n, len(doc), g), map[string]interface{}{"family": name, "n": n})
+	}
+	return g
+}
+
 // RunC17 is the entry point of the C17 check.
 func RunC17(tier string, args []string) int {
+	if len(args) > 1 && args[0] == "footprint" {
+		return c17FootprintWorker(args[1])
+	}
 	chk := fw.NewCheck("C17", tier, "exploration")
 	chk.Assumptions = []string{
 		"what is enumerated exhaustively is the entry count N up to a bound, with a live-heap invariant (two forced GCs, HeapAlloc) evaluated in intermediate states of the streaming loop; a bound for all N is extrapolated from the loop being the same code for every entry",
 		"reader + discarding processor: live(k) <= live(first entry) + 1 MiB at every 64th entry; transfers (URL download with a lazily produced body, crl_file copy): total allocation <= 4 MiB independent of the size; whole disk path: max over 16 intermediate states of live(k) - live(first entry) <= 24 MiB at N = 2^19 (2^21 thorough) entries",
+		"transient buffers: reading a 2^20-entry CRL (ordinary serials; a document without any 0x0A octet before its signature; PEM) in a fresh process grows the heap obtained from the OS (high-water mark) by <= 32 MiB",
 	}
 	dir := FreshDir("c17")
 	defer os.RemoveAll(dir)
@@ -304,6 +381,16 @@ func RunC17(tier string, args []string) int {
 	if tier == "thorough" {
 		diskN = []int{1 << 19, 1 << 21}
 	}
+	// heap footprint (high-water mark) in a fresh process: ordinary serials and a CRL without any line-feed octet
+	fpN := 1 << 20
+	var footprints []int64
+	footprints = append(footprints, c17Footprint(chk, "ordinary", c17Doc(fpN, false), fpN, dir))
+	nolf, nn := c17DocNoLF(fpN)
+	footprints = append(footprints, c17Footprint(chk, "no-line-feed-octet", nolf, nn, dir))
+	nolf = nil
+	footprints = append(footprints, c17Footprint(chk, "ordinary-PEM", c17Doc(fpN/4, true), fpN/4, dir))
+	evals += 3
+	distinct += 3
 	var growths []int64
 	for _, n := range diskN {
 		growths = append(growths, c17Disk(chk, n))
@@ -311,13 +398,14 @@ func RunC17(tier string, args []string) int {
 		distinct++
 	}
 	cov := fw.Coverage{
-		"evaluations":            evals,
-		"distinct_nontrivial":    distinct,
-		"rule":                   fmt.Sprintf("entry counts: every N in [0,256] and N = 2^k for k = 9..%d (DER, PEM for selected N) through the real reader with a discarding processor; transfer sizes %v bytes via URL download and file copy; whole disk path with N in %v. Non-trivial = N > 1 (the loop iterates).", maxK, sizes, diskN),
-		"heap_samples":           samples,
-		"disk_peak_growth_bytes": growths,
-		"samples":                []string{"N=256 DER", fmt.Sprintf("N=%d PEM", 1<<maxK), "64 MiB lazily produced download body", fmt.Sprintf("disk path N=%d", diskN[0])},
-		"exhaustive":             true,
+		"evaluations":                   evals,
+		"distinct_nontrivial":           distinct,
+		"rule":                          fmt.Sprintf("entry counts: every N in [0,256] and N = 2^k for k = 9..%d (DER, PEM for selected N) through the real reader with a discarding processor; transfer sizes %v bytes via URL download and file copy; whole disk path with N in %v. Non-trivial = N > 1 (the loop iterates).", maxK, sizes, diskN),
+		"heap_samples":                  samples,
+		"disk_peak_growth_bytes":        growths,
+		"reader_footprint_growth_bytes": footprints,
+		"samples":                       []string{"N=256 DER", fmt.Sprintf("N=%d PEM", 1<<maxK), "64 MiB lazily produced download body", fmt.Sprintf("disk path N=%d", diskN[0])},
+		"exhaustive":                    true,
 	}
 	return chk.Finish(cov)
 }
